@@ -105,6 +105,9 @@ impl BDDSet {
 
     pub fn contains<T: BDDCategorizable>(&self, e: T) -> bool {
         let singleton = Self::from_element(e, self.bits, &self.env);
-        self.intersect(&singleton) == &singleton
+        // compare self ∩ {e} with {e} without storing the intersection into `self`
+        let _self = self.bdd.borrow().clone();
+        let _single = singleton.bdd.borrow().clone();
+        self.env.and(_self, Rc::clone(&_single)) == _single
     }
 }
